@@ -492,6 +492,45 @@ func rootFieldOfAddr(v ssa.Value, recv *ssa.Parameter) string {
 	return ""
 }
 
+// regionHeaderWriter: the unexported method of Region that writes a header
+// slot: found structurally (a method of *Region other than the exported API
+// whose body multiplies a coordinate parameter by 32), not by name.
+func (c *Ctx) regionHeaderWriter() *ssa.Function {
+	for _, fn := range methodsOfType(c, "save/region.Region") {
+		if len(fn.Params) < 3 {
+			continue
+		}
+		if obj := fn.Object(); obj != nil && obj.Exported() {
+			continue
+		}
+		for _, b := range fn.Blocks {
+			for _, in := range b.Instrs {
+				if bo, ok := in.(*ssa.BinOp); ok && bo.Op == token.MUL {
+					if k, ok := constIntVal(bo.Y); ok && k == 32 {
+						if _, isP := stripConv(bo.X).(*ssa.Parameter); isP {
+							return fn
+						}
+					}
+					if k, ok := constIntVal(bo.X); ok && k == 32 {
+						if _, isP := stripConv(bo.Y).(*ssa.Parameter); isP {
+							return fn
+						}
+					}
+				}
+			}
+		}
+	}
+	return nil
+}
+
+func isCallTo(ci ssa.CallInstruction, fn *ssa.Function) bool {
+	if fn == nil {
+		return false
+	}
+	sc := ci.Common().StaticCallee()
+	return sc != nil && core.Origin(sc) == fn
+}
+
 // RegionOrder: C14/C15 ordering rules in WriteSector / Load.
 func (c *Ctx) RegionOrder() []core.Ob {
 	var obs []core.Ob
@@ -500,6 +539,7 @@ func (c *Ctx) RegionOrder() []core.Ob {
 		return []core.Ob{missingFn("region:WriteSector", "save/region.(*Region).WriteSector")}
 	}
 	recv := ws.Params[0]
+	hw := c.regionHeaderWriter()
 	// mutation instructions
 	type mut struct {
 		in   ssa.Instruction
@@ -524,7 +564,7 @@ func (c *Ctx) RegionOrder() []core.Ob {
 			case ssa.CallInstruction:
 				n := calleeName(x.Common())
 				switch {
-				case strings.HasSuffix(n, "region.(Region).setHead"), strings.HasSuffix(n, "region.(Region).writeAt"):
+				case isCallTo(x, hw):
 					muts = append(muts, mut{in, "call " + n[strings.LastIndex(n, ".")+1:]})
 				case n == "encoding/binary.Write", strings.HasSuffix(n, ".Write") && x.Common().IsInvoke(), strings.HasSuffix(n, ".Seek") && x.Common().IsInvoke():
 					muts = append(muts, mut{in, "file I/O " + n})
@@ -573,7 +613,7 @@ func (c *Ctx) RegionOrder() []core.Ob {
 	for _, s := range offsetStores {
 		if !mustFollow(ws, s, func(in ssa.Instruction) bool {
 			ci, ok := in.(ssa.CallInstruction)
-			return ok && strings.HasSuffix(calleeName(ci.Common()), "region.(Region).setHead")
+			return ok && isCallTo(ci, hw)
 		}) {
 			h.Status, h.Got = core.Violated, "a path from the offsets update at "+c.P.Pos(s.Pos())+" reaches a return without setHead: the on-disk header goes stale"
 		}
@@ -582,9 +622,16 @@ func (c *Ctx) RegionOrder() []core.Ob {
 
 	// setHead receives WriteSector's own x, z (in that order)
 	a := c.ordOb("region:setHead-own-coordinates", "setHead is called with WriteSector's own x and z, in this order", ws)
-	heads := callsIn(ws, func(n string, _ *ssa.CallCommon) bool { return strings.HasSuffix(n, "region.(Region).setHead") })
+	var heads []ssa.CallInstruction
+	for _, b := range ws.Blocks {
+		for _, in := range b.Instrs {
+			if ci, ok := in.(ssa.CallInstruction); ok && isCallTo(ci, hw) {
+				heads = append(heads, ci)
+			}
+		}
+	}
 	if len(heads) == 0 {
-		a.Status, a.Got = core.Violated, "no setHead call"
+		a.Status, a.Got = core.Violated, "no call of the header-slot writer (the Region method computing 4*(z*32+x)) in WriteSector"
 	}
 	for _, hc := range heads {
 		args := hc.Common().Args
@@ -903,8 +950,42 @@ func (c *Ctx) RegionOrigin() []core.Ob {
 		}
 		return o
 	}
-	allowed := map[string]bool{"CreateWriter": true, "WriteSector": true, "PadToFullSector": true, "writeAt": true}
-	w := mk("region:who-may-write", "only CreateWriter, WriteSector, PadToFullSector and writeAt issue writes on the region's backing file", nil)
+	allowed := map[string]bool{"CreateWriter": true, "WriteSector": true, "PadToFullSector": true}
+	// unexported helpers whose every caller is an allowed writer are allowed too (writeAt, setHead)
+	for changed := true; changed; {
+		changed = false
+		for _, fn := range c.Funcs() {
+			if !inPkgs(fn, "save/region") || fn.Parent() != nil || allowed[fn.Name()] {
+				continue
+			}
+			if obj := fn.Object(); obj == nil || obj.Exported() {
+				continue
+			}
+			callers, ok := 0, true
+			for _, g := range c.Funcs() {
+				if !inPkgs(g, "save/region") {
+					continue
+				}
+				for _, ci := range callsIn(g, func(string, *ssa.CallCommon) bool { return true }) {
+					if isCallTo(ci, fn) {
+						callers++
+						top := g
+						for top.Parent() != nil {
+							top = top.Parent()
+						}
+						if !allowed[top.Name()] {
+							ok = false
+						}
+					}
+				}
+			}
+			if ok && callers > 0 {
+				allowed[fn.Name()] = true
+				changed = true
+			}
+		}
+	}
+	w := mk("region:who-may-write", "only CreateWriter, WriteSector, PadToFullSector (and unexported helpers called only by them) issue writes on the region's backing file", nil)
 	n := 0
 	for _, fn := range c.Funcs() {
 		if !inPkgs(fn, "save/region") {
@@ -989,12 +1070,21 @@ func (c *Ctx) RegionOrigin() []core.Ob {
 		okLeaf := false
 		switch x := l.(type) {
 		case *ssa.Call:
-			okLeaf = strings.HasSuffix(calleeName(x.Common()), "region.(Region).findSpace")
+			// the allocator: a method of the same region (searching its occupancy map)
+			if sc := x.Common().StaticCallee(); sc != nil && len(x.Common().Args) > 0 && x.Common().Args[0] == ssa.Value(ws.Params[0]) && inPkgs(sc, "save/region") {
+				okLeaf = true
+			}
 		case *ssa.Extract:
-			if cl, ok := x.Tuple.(*ssa.Call); ok && strings.HasSuffix(calleeName(cl.Common()), "region.sectorLoc") && x.Index == 0 {
-				// argument: load of offsets[z][x] of the receiver
-				if ld, ok := cl.Common().Args[0].(*ssa.UnOp); ok {
-					okLeaf = rootFieldOfAddr(ld.X, ws.Params[0]) == "offsets"
+			// the decoded header slot: a function of package region applied to this chunk's own offsets[z][x]
+			if cl, ok := x.Tuple.(*ssa.Call); ok && x.Index == 0 {
+				if sc := cl.Common().StaticCallee(); sc != nil && inPkgs(sc, "save/region") && len(cl.Common().Args) == 1 {
+					if ld, ok := cl.Common().Args[0].(*ssa.UnOp); ok {
+						if x2, ok := ld.X.(*ssa.IndexAddr); ok {
+							if x1, ok := x2.X.(*ssa.IndexAddr); ok {
+								okLeaf = rootFieldOfAddr(x1.X, ws.Params[0]) == "offsets" && stripConv(x1.Index) == ssa.Value(ws.Params[2]) && stripConv(x2.Index) == ssa.Value(ws.Params[1])
+							}
+						}
+					}
 				}
 			}
 		}
